@@ -178,10 +178,11 @@ enum FileState {
 }
 
 fn histories(cli: &Path, work: &Path, rep: &mut Report) {
-    let src = "#[derive(Logos, Debug)]\n#[logos(skip \" \")]\nenum T {\n    #[token(\"a\")]\n    A,\n    #[regex(\"[0-9]+\")]\n    N,\n}\n";
+    // (the doc string spans two lines, so the generated text has an inner line ending even without rustfmt)
+    let src = "#[derive(Logos, Debug)]\n#[doc = \"first line\nsecond line\"]\n#[logos(skip \" \")]\nenum T {\n    #[token(\"a\")]\n    A,\n    #[regex(\"[0-9]+\")]\n    N,\n}\n";
     let inp = work.join("hist_in.rs");
     std::fs::write(&inp, src).unwrap();
-    let ops = ["write", "check", "stale", "crlf", "delete"];
+    let ops = ["write", "check", "stale", "crlf", "addnl", "delete"];
     // all op sequences of length 1..=4 (breadth-first order); each is replayed from scratch
     let mut all: Vec<Vec<&str>> = vec![];
     let mut q: VecDeque<Vec<&str>> = VecDeque::new();
@@ -197,18 +198,46 @@ fn histories(cli: &Path, work: &Path, rep: &mut Report) {
             q.push_back(h2);
         }
     }
-    let expected_out = run_cli(cli, &[inp.to_str().unwrap()]).1;
+    let expected_out = {
+        // the text a write produces (stdout carries one more line ending from println!)
+        let probe = work.join("hist_probe.rs");
+        let _ = std::fs::remove_file(&probe);
+        run_cli(cli, &[inp.to_str().unwrap(), "--output", probe.to_str().unwrap()]);
+        let t = std::fs::read_to_string(&probe).unwrap_or_default();
+        let stdout = run_cli(cli, &[inp.to_str().unwrap()]).1;
+        if t.is_empty() || t.trim_end() != stdout.trim_end() || t.lines().count() < 2 {
+            rep.violations.push(Violation { key: "CLI-CHECK/probe".into(), tag: "CLI-CHECK".into(), case: "first write".into(), detail: format!("a write into a fresh file gives {} bytes / {} lines, stdout {} bytes", t.len(), t.lines().count(), stdout.len()), replay: json!({"kind": "c17", "tag": "CLI-CHECK"}) });
+        }
+        t
+    };
+    // the model is the file content: up to date <=> equal to the generated text line by line
+    let classify = |c: &Option<Vec<u8>>| -> FileState {
+        match c {
+            None => FileState::Absent,
+            Some(b) => {
+                let t = String::from_utf8_lossy(b);
+                if b.as_slice() == expected_out.as_bytes() {
+                    FileState::Fresh
+                } else if t.lines().eq(expected_out.lines()) {
+                    FileState::FreshCrlf
+                } else {
+                    FileState::Stale
+                }
+            }
+        }
+    };
     let results: Vec<(Option<String>, Vec<(FileState, usize)>)> = all
         .par_iter()
         .enumerate()
         .map(|(n_hist, h2)| {
             let out = work.join(format!("hist_out_{n_hist}.rs"));
             let _ = std::fs::remove_file(&out);
-            let mut model = FileState::Absent;
             let mut bad: Option<String> = None;
             let mut states = vec![];
             for (k, step) in h2.iter().enumerate() {
                 let before = std::fs::read(&out).ok();
+                let model = classify(&before);
+                let up_to_date = matches!(model, FileState::Fresh | FileState::FreshCrlf);
                 match *step {
                     "write" => {
                         let (code, _, err) = run_cli(cli, &[inp.to_str().unwrap(), "--output", out.to_str().unwrap()]);
@@ -216,24 +245,17 @@ fn histories(cli: &Path, work: &Path, rep: &mut Report) {
                             bad = Some(format!("step {k} write: exit {code} {err}"));
                         }
                         let after = std::fs::read(&out).ok();
-                        // after a write the file holds exactly the generated output (modulo line endings)
-                        let text = String::from_utf8_lossy(after.as_deref().unwrap_or(b"")).to_string();
-                        if !text.lines().eq(expected_out.lines()) {
-                            bad = Some(format!("step {k}: after a write the file does not hold the generated output ({} bytes, expected {})", text.len(), expected_out.len()));
-                        }
-                        match model {
-                            FileState::Fresh | FileState::FreshCrlf => {
-                                if after != before {
-                                    bad = Some(format!("step {k}: write over an up-to-date file (modulo newlines) modified it"));
-                                }
+                        if up_to_date {
+                            if after != before {
+                                bad = Some(format!("step {k}: write over an up-to-date file (modulo line endings, {model:?}) modified it"));
                             }
-                            _ => model = FileState::Fresh,
+                        } else if after.as_deref() != Some(expected_out.as_bytes()) {
+                            bad = Some(format!("step {k}: after a write over a {model:?} file the file does not hold the generated output"));
                         }
                     }
                     "check" => {
                         let (code, _, _) = run_cli(cli, &[inp.to_str().unwrap(), "--output", out.to_str().unwrap(), "--check"]);
-                        let want_ok = matches!(model, FileState::Fresh | FileState::FreshCrlf);
-                        if (code == 0) != want_ok {
+                        if (code == 0) != up_to_date {
                             bad = Some(format!("step {k}: --check exit {code} on a {model:?} file"));
                         }
                         if std::fs::read(&out).ok() != before {
@@ -241,28 +263,30 @@ fn histories(cli: &Path, work: &Path, rep: &mut Report) {
                         }
                     }
                     "stale" => {
-                        if model != FileState::Absent {
-                            let mut c = before.clone().unwrap_or_default();
+                        if let Some(c) = &before {
+                            let mut c = c.clone();
                             c.extend_from_slice(b"\n// edited\n");
                             std::fs::write(&out, c).unwrap();
-                            model = FileState::Stale;
                         }
                     }
                     "crlf" => {
                         if let Some(c) = &before {
                             let s = String::from_utf8_lossy(c).replace("\r\n", "\n").replace('\n', "\r\n");
                             std::fs::write(&out, s).unwrap();
-                            if model == FileState::Fresh {
-                                model = FileState::FreshCrlf;
-                            }
+                        }
+                    }
+                    "addnl" => {
+                        if let Some(c) = &before {
+                            let mut c = c.clone();
+                            c.push(b'\n');
+                            std::fs::write(&out, c).unwrap();
                         }
                     }
                     _ => {
                         let _ = std::fs::remove_file(&out);
-                        model = FileState::Absent;
                     }
                 }
-                states.push((model, k));
+                states.push((classify(&std::fs::read(&out).ok()), k));
             }
             let _ = std::fs::remove_file(&out);
             (bad, states)
@@ -314,7 +338,7 @@ fn histories_format(cli: &Path, work: &Path, rep: &mut Report) {
         return;
     }
     let formatted = own;
-    let ops = ["write", "writef", "check", "checkf", "delete"];
+    let ops = ["write", "writef", "check", "checkf", "delete", "crlf", "addnl"];
     let mut all: Vec<Vec<&str>> = vec![];
     let mut q: VecDeque<Vec<&str>> = VecDeque::new();
     q.push_back(vec![]);
@@ -344,6 +368,18 @@ fn histories_format(cli: &Path, work: &Path, rep: &mut Report) {
                     "writef" => (true, true),
                     "check" => (false, false),
                     "checkf" => (false, true),
+                    "crlf" => {
+                        if let Some(t) = &before_text {
+                            std::fs::write(&out, t.replace("\r\n", "\n").replace('\n', "\r\n")).unwrap();
+                        }
+                        continue;
+                    }
+                    "addnl" => {
+                        if let Some(t) = &before_text {
+                            std::fs::write(&out, format!("{t}\n")).unwrap();
+                        }
+                        continue;
+                    }
                     _ => {
                         let _ = std::fs::remove_file(&out);
                         continue;
